@@ -224,7 +224,9 @@ def case_cli(run, i):
         run.extra[f"cli-raised:{type(exc).__name__}"] += 1
     seen = getattr(run._tls, "last_seg", None)
     mon = "cli.segment[file]"
-    if seen is not None and os.path.exists(cns):
+    if seen is not None and ("probes" not in seen or not seen["n"]):
+        run.ood(mon, "no-segment-returned")
+    elif seen is not None and os.path.exists(cns):
         with open(cns) as fh:
             rows = list(csv.DictReader(fh, delimiter="\t"))
         got = [(r["chromosome"], int(r["start"]), int(r["end"]), int(float(r["probes"]))) for r in rows]
